@@ -14,6 +14,8 @@ from ubxlib.cid import UbxCID
 from ubxlib.parser_ubx import UbxParser
 from ubxlib.parser_nmea import NmeaParser
 
+realenv.patch_all_time()
+
 CRC = (0, 2)
 CIDS = [(5, 1), (5, 0), (6, 8), (1, 3), (0x13, 0x60), (0xb5, 0x62)]
 MAXLEN = 1000
@@ -34,15 +36,37 @@ def parse_cids(s):
     return [UbxCID(*map(int, x.split(':'))) for x in s.split(',')] if s else []
 
 
-def real_ubx(line):
-    ops = line.split('|', 1)[1]
-    p = UbxParser(UbxCID(*CRC))
-    out = []
-    handed = []          # (payload object, copy at hand-out time)
-    try:
-        for op in ops.split(';'):
-            if op[0] == 'P':
-                p.process(bytes.fromhex(op[1:]))
+FEED = 'PALMIG'       # process() given bytes / bytearray / list / memoryview / iterator / generator: any iterable of byte values
+
+
+def as_container(kind, b):
+    if kind == 'A':
+        return bytearray(b)
+    if kind == 'L':
+        return list(b)
+    if kind == 'M':
+        return memoryview(b)
+    if kind == 'I':
+        return iter(b)
+    if kind == 'G':
+        return (x for x in b)
+    return b
+
+
+class UbxRun:
+    """one real parser driven op by op"""
+
+    def __init__(self):
+        self.p = UbxParser(UbxCID(*CRC))
+        self.out, self.handed, self.exc = [], [], None      # handed: (payload object, copy at hand-out time)
+
+    def step(self, op):
+        if self.exc:
+            return
+        p, out, handed = self.p, self.out, self.handed
+        try:
+            if op[0] in FEED:
+                p.process(as_container(op[0], bytes.fromhex(op[1:])))
             elif op == 'K':
                 cid, data = p.packet()
                 if data is not None:
@@ -59,6 +83,8 @@ def real_ubx(line):
                 out.append('.')
             elif op == 'R':
                 p.restart()
+            elif op[0] == 'T':
+                realenv.CLK.ticks += int(op[1:])      # time passes (or the wall clock is stepped) between two calls
             elif op == 'E':
                 p.empty_queue()
             elif op[0] == 'F':
@@ -67,24 +93,75 @@ def real_ubx(line):
                 p.set_filter(parse_cids(op[1:])[0])
             else:
                 out.append('bad-op')
-    except Exception as e:
-        return ' '.join(out + ['EXC:' + exc_name(e)])
-    stable = all(bytes(obj) == snap for obj, snap in handed)
-    return ' '.join(out + [f'rx={p.frames_rx}', f'stable={"true" if stable else "false"}'])
+        except Exception as e:
+            self.exc = 'EXC:' + exc_name(e)
+
+    def result(self):
+        if self.exc:
+            return ' '.join(self.out + [self.exc])
+        stable = all(bytes(obj) == snap for obj, snap in self.handed)
+        return ' '.join(self.out + [f'rx={self.p.frames_rx}', f'stable={"true" if stable else "false"}'])
+
+
+class NmeaRun:
+    def __init__(self):
+        self.p = NmeaParser()
+        self.exc = None
+
+    def step(self, op):
+        if self.exc:
+            return
+        try:
+            if op[0] in FEED:
+                self.p.process(as_container(op[0], bytes.fromhex(op[1:])))
+            elif op == 'R':
+                self.p.restart()
+            elif op[0] == 'T':
+                realenv.CLK.ticks += int(op[1:])
+        except Exception as e:
+            self.exc = 'EXC:' + exc_name(e)
+
+    def result(self):
+        return self.exc or f'rx={self.p.frames_rx}'
+
+
+def run_interleaved(cls, line):
+    """<kind>il|<schedule>|<ops of object 0>|<ops of object 1>|…: all objects exist from the start; digit k of the schedule
+    lets object k do its next op; what is left when the schedule ends is done object by object; a digit 9 creates (and
+    drops) one more object of the class in between"""
+    parts = line.split('|')
+    sched, seqs = parts[1], [x.split(';') for x in parts[2:]]
+    runs = [cls() for _ in seqs]
+    pos = [0] * len(seqs)
+    for ch in sched:
+        k = int(ch)
+        if k == 9:
+            cls()
+        elif k < len(seqs) and pos[k] < len(seqs[k]):
+            runs[k].step(seqs[k][pos[k]])
+            pos[k] += 1
+    for k, ops in enumerate(seqs):
+        for op in ops[pos[k]:]:
+            runs[k].step(op)
+    return ' ## '.join(r.result() for r in runs)
+
+
+def real_ubx(line):
+    if line.startswith('ubxil|'):
+        return run_interleaved(UbxRun, line)
+    r = UbxRun()
+    for op in line.split('|', 1)[1].split(';'):
+        r.step(op)
+    return r.result()
 
 
 def real_nmea(line):
-    ops = line.split('|', 1)[1]
-    p = NmeaParser()
-    try:
-        for op in ops.split(';'):
-            if op[0] == 'P':
-                p.process(bytes.fromhex(op[1:]))
-            elif op == 'R':
-                p.restart()
-    except Exception as e:
-        return 'EXC:' + exc_name(e)
-    return f'rx={p.frames_rx}'
+    if line.startswith('nmeail|'):
+        return run_interleaved(NmeaRun, line)
+    r = NmeaRun()
+    for op in line.split('|', 1)[1].split(';'):
+        r.step(op)
+    return r.result()
 
 
 # =====================================================================================================
@@ -145,7 +222,7 @@ def spec_ubx(line):
     sc = Scanner()
     pieces = []              # every scanned segment, for the cross-check against Lean
     for op in ops:
-        if op[0] == 'P':
+        if op[0] in FEED:
             for kind, c, d, pl, _, _ in sc.feed(bytes.fromhex(op[1:])):
                 if kind == 'frame':
                     rx += 1
@@ -175,9 +252,9 @@ def show_events(s):
 
 def features_ubx(line):
     ops = line.split('|', 1)[1].split(';')
-    first_p = next((i for i, o in enumerate(ops) if o[0] == 'P'), len(ops))
+    first_p = next((i for i, o in enumerate(ops) if o[0] in FEED), len(ops))
     mid = ops[first_p:]
-    stream = b''.join(bytes.fromhex(o[1:]) for o in ops if o[0] == 'P')
+    stream = b''.join(bytes.fromhex(o[1:]) for o in ops if o[0] in FEED)
     evs = scan_pos(stream)
     return {
         'restart': any(o == 'R' for o in ops),
@@ -185,7 +262,7 @@ def features_ubx(line):
         'empty': any(o == 'E' for o in ops),
         'long': any(e[0] == 'long' for e in evs),
         'frames': sum(e[0] == 'frame' for e in evs), 'bad': sum(e[0] == 'bad' for e in evs),
-        'chunks': sum(o[0] == 'P' for o in ops), 'bytes': len(stream),
+        'chunks': sum(o[0] in FEED for o in ops), 'bytes': len(stream),
         'maxpl': max([len(e[3]) for e in evs] or [0]),
     }
 
@@ -195,10 +272,10 @@ def occurrence_check(line, real_out):
     distinct, non-overlapping, checksum-valid occurrence in the input, in stream order, and was in the filter.
     (only for lines without restart / empty_queue / filter changes after the first chunk)"""
     ops = line.split('|', 1)[1].split(';')
-    stream = b''.join(bytes.fromhex(o[1:]) for o in ops if o[0] == 'P')
+    stream = b''.join(bytes.fromhex(o[1:]) for o in ops if o[0] in FEED)
     filt = None
     for o in ops:
-        if o[0] == 'P':
+        if o[0] in FEED:
             break
         if o[0] in 'FS':
             filt = [tuple(map(int, x.split(':'))) for x in o[1:].split(',')] if len(o) > 1 else []
@@ -220,7 +297,25 @@ def occurrence_check(line, real_out):
     return None
 
 
+def oracles_interleaved(kind, one, line, real_out):
+    """several objects alive at once: each is judged as if it were alone"""
+    seqs = line.split('|')[2:]
+    outs = real_out.split(' ## ')
+    merged, spec = {}, []
+    for k, ops in enumerate(seqs):
+        recs, sp = one(kind + '|' + ops, outs[k] if k < len(outs) else 'missing')
+        spec += sp
+        for r in recs:
+            m = merged.get(r['prop'])
+            if m is None or (m['ok'] and not r['ok']):
+                merged[r['prop']] = dict(r, what=r['what'] + ' (several parser objects alive at once, each as if alone)',
+                                         observed=(f'object {k}: ' if not r['ok'] else '') + r['observed'])
+    return list(merged.values()), spec
+
+
 def oracles_ubx(line, real_out):
+    if line.startswith('ubxil|'):
+        return oracles_interleaved('ubx', oracles_ubx, line, real_out)
     exp, pieces = spec_ubx(line)
     ft = features_ubx(line)
     recs = []
@@ -270,10 +365,12 @@ def nmea_count(s):
 
 
 def oracles_nmea(line, real_out):
+    if line.startswith('nmeail|'):
+        return oracles_interleaved('nmea', oracles_nmea, line, real_out)
     ops = line.split('|', 1)[1].split(';')
     pieces, seg = [], bytearray()
     for o in ops:
-        if o[0] == 'P':
+        if o[0] in FEED:
             seg += bytes.fromhex(o[1:])
         elif o == 'R':
             pieces.append(bytes(seg))
@@ -415,8 +512,55 @@ def filt_op(rng):
     return 'F' + ','.join(f'{c}:{i}' for c, i in rng.sample(CIDS, rng.randrange(1, len(CIDS) + 1)))
 
 
+def interleave(rng, kind, lines):
+    """two or three generated lines as objects that live at the same time, their ops interleaved in bursts"""
+    seqs = [ln.split('|', 1)[1] for ln in lines]
+    total = sum(s.count(';') + 1 for s in seqs)
+    sched = []
+    while len(sched) < total + 3:
+        k = rng.randrange(len(seqs)) if rng.random() > 0.04 else 9
+        sched += [str(k)] * rng.choice([1, 1, 1, 2, 3])
+    return f'{kind}il|' + ''.join(sched) + '|' + '|'.join(seqs)
+
+
+TIME_STEPS = [1, 11 * 1024, 3600 * 1024, 400 * 86400 * 1024, -3600 * 1024, -20 * 365 * 86400 * 1024]
+
+
+def with_containers(rng, ln):
+    """the chunks handed over as other iterables of byte values than bytes"""
+    kind, ops = ln.split('|', 1)
+    k = rng.choice('ALMIG')
+    return kind + '|' + ';'.join((rng.choice([k, k, 'P']) + o[1:]) if o[0] == 'P' else o for o in ops.split(';'))
+
+
+def with_time(rng, ln):
+    """time passes between two calls - a second, an hour, a year - or the wall clock is stepped back (a host that sets its
+    clock from the receiver it is talking to)"""
+    kind, ops = ln.split('|', 1)
+    ops = ops.split(';')
+    for _ in range(rng.choice([1, 1, 2, 3])):
+        ops.insert(rng.randrange(len(ops) + 1), f'T{rng.choice(TIME_STEPS)}')
+    return kind + '|' + ';'.join(ops)
+
+
 def gen_ubx(rng, n, profile):
-    """profile: 'grammar' (C02), 'wild' (C03), 'chunks' (C09), 'ops' (C11), 'mixed'"""
+    """profile: 'grammar' (C02), 'wild' (C03), 'chunks' (C09), 'ops' (C11), 'mixed'; about one line in twelve runs two or
+    three parser objects side by side; one in eight has time passing between the calls"""
+    hold = []
+    for ln in gen_ubx1(rng, n, profile):
+        if rng.random() < 0.12:
+            ln = with_time(rng, ln)
+        if rng.random() < 0.1:
+            ln = with_containers(rng, ln)
+        yield ln
+        if rng.random() < 0.2 and len(ln) < 4000:
+            hold.append(ln)
+            if len(hold) >= rng.choice([2, 2, 3]):
+                yield interleave(rng, 'ubx', hold)
+                hold = []
+
+
+def gen_ubx1(rng, n, profile):
     for k in range(n):
         prof = profile if profile != 'mixed' else rng.choice(['grammar', 'wild', 'chunks', 'ops'])
         stream = grammar_stream(rng, allow_long=prof != 'grammar') if prof in ('grammar', 'ops') or rng.random() < 0.4 else wild_stream(rng)
@@ -485,7 +629,22 @@ def nmea_stream(rng):
 
 
 def gen_nmea(rng, n, profile):
-    """profile: 'count' (C16: no restart), 'chunks' (C09)"""
+    """profile: 'count' (C16: no restart), 'chunks' (C09); about one line in twelve runs two or three parser objects side by side"""
+    hold = []
+    for ln in gen_nmea1(rng, n, profile):
+        if rng.random() < 0.12:
+            ln = with_time(rng, ln)
+        if rng.random() < 0.1:
+            ln = with_containers(rng, ln)
+        yield ln
+        if rng.random() < 0.2 and len(ln) < 4000:
+            hold.append(ln)
+            if len(hold) >= rng.choice([2, 2, 3]):
+                yield interleave(rng, 'nmea', hold)
+                hold = []
+
+
+def gen_nmea1(rng, n, profile):
     for _ in range(n):
         s = nmea_stream(rng)
         if profile == 'count':
